@@ -160,6 +160,12 @@ def include_table(repo, run):
         me = node_obj('inc', 'IncludeNode', filenames=['a', 'b'], _source_file='/src/main.yaml', _safe=None)
         builder = Obj('builder', 'Builder')
         sub = Obj('sub', 'SubBuilder')
+        try:
+            # (state an implementation keeps on the builders takes part: they are initialised by their own constructors)
+            FDE(repo).call(repo.func('Builder.__init__'), builder)
+            FDE(repo, stubs={'get_current_stage_idx'}, stub=lambda *a: 0).call(repo.func('SubBuilder.__init__'), sub, ['inc'], builder)
+        except Exception:  # noqa
+            builder, sub = Obj('builder', 'Builder'), Obj('sub', 'SubBuilder')
         stream = node_obj('stream', 'StreamNode')
         log = []
 
@@ -248,6 +254,65 @@ def include_table(repo, run):
         run.violation('C06.R3', fi, 'missing-file handling', '%s [files present: %s]' % (bad3[0][1], bad3[0][0]), witness=[str(b)[:300] for b in bad3[:5]])
     else:
         run.ok('C06.R3', fi, 'missing-file table (%d rows)' % rows, 'a name found nowhere raises FileNotFoundError and nothing is built; otherwise build() once, after all files')
+
+
+def include_history(repo, run):
+    """two includes of the same relative name processed one after the other by the same builder, from including files in different
+    directories (each directory holds its own file of that name): the second include is looked up next to ITS including file first
+    - what an earlier include found must not decide it. The builder and sub-builders are initialised by their own constructors
+    (evaluated), so that state an implementation keeps on them takes part."""
+    import posixpath
+    fi = repo.func('IncludeNode.ayns.on_preprocess_impl')
+    binit = repo.func('Builder.__init__')
+    sinit = repo.func('SubBuilder.__init__')
+    builder = Obj('builder', 'Builder')
+    fde_guard(lambda: FDE(repo).call(binit, builder))
+    exists = {('/d1', 'x'), ('/e1', 'x'), ('/cwd', 'other')}
+    log = []
+    subs = []
+
+    def stub(name, recv, args, kwargs):
+        if name == 'get_subbuilder':
+            sub = Obj('sub%d' % len(subs), 'SubBuilder')
+            f2 = FDE(repo, stubs={'get_current_stage_idx'}, stub=lambda *a: 0)
+            fde_guard(lambda: f2.call(sinit, sub, list(args[0]) if args and isinstance(args[0], list) else ['inc'], builder))
+            subs.append(sub)
+            return sub
+        if name == 'get_lookup_dirs':
+            ref = args[0] if args else None
+            return iter(([posixpath.dirname(ref)] if ref else []) + ['/cwd'])
+        if name == 'add_source':
+            log.append(('add', str(args[0])))
+            d, _, n = posixpath.normpath(str(args[0])).rpartition('/')
+            if (d, n) not in exists:
+                raise Raised('FileNotFoundError')
+            return None
+        if name == 'build':
+            return node_obj('stream', 'StreamNode')
+        if name == 'on_preprocess':
+            return Opaque('preprocessed stream')
+        raise AnalysisError('unexpected stub ' + name)
+
+    def _isfile(pth):
+        d, _, n = posixpath.normpath(str(pth)).rpartition('/')
+        return (d, n) in exists
+    firsts = []
+    for ref in ('/d1/main.yaml', '/e1/other.yaml'):
+        me = node_obj('inc', 'IncludeNode', filenames=['x'], _source_file=ref, _safe=None)
+        f = FDE(repo, stubs={'get_subbuilder', 'get_lookup_dirs', 'add_source', 'build', 'on_preprocess'}, stub=stub)
+        f.extcalls = {'os.path.join': posixpath.join, 'os.path.normpath': posixpath.normpath, 'os.path.isfile': _isfile, 'os.path.exists': _isfile, 'os.path.isabs': posixpath.isabs,
+                      'os.path.abspath': lambda x: posixpath.normpath(posixpath.join('/cwd', x)), 'os.getcwd': lambda: '/cwd', 'os.path.expanduser': lambda x: x, 'os.path.dirname': posixpath.dirname}
+        n0 = len(log)
+        r = fde_guard(lambda: f.call(fi, me, ['inc'], builder))
+        adds = [posixpath.normpath(x[1]) for x in log[n0:]]
+        if r.raised or not adds:
+            raise AnalysisError('C06.R2: include history row not evaluable (%s)' % (r.raised or 'no source added'))
+        firsts.append((ref, adds))
+    (r1, a1), (r2, a2) = firsts
+    if a1[-1] != '/d1/x' or a2[-1] != '/e1/x' or a2[0] != '/e1/x':
+        run.violation('C06.R2', fi, 'include lookup after an earlier include', 'after `!include x` in %s loaded %s, `!include x` in %s tries %s (expected /e1/x first: the directory of the including file): what an earlier include found decides a later one' % (r1, a1[-1], r2, a2))
+    else:
+        run.ok('C06.R2', fi, 'a second include of the same name from another directory is looked up next to its own including file')
 
 
 def r4(repo, run):
@@ -438,6 +503,7 @@ def check(repo, run, tier):
     g(unitrules.tag_spec, repo, run, 'C06.R2', ['!include', '!rec', '!path', '!path:'])
     g(unitrules.current_file_tracking, repo, run, 'C06.R10')
     g(unitrules.add_source_table, repo, run, 'C06.R2')
+    g(include_history, repo, run)
     g.done()
 
 
